@@ -22,7 +22,8 @@ ASSUMPTIONS = [
     'a short write at the raw layer below the buffered writer is legal and must not make the invocation fail or lose data',
     'documented argument domains: content str/bytes/int; version None/int/str; error None/str; mode None/str; mask None/int/numeric str; '
     'encoding None/str; eci, boost_error bool; micro None/bool; symbol_count None/int (segment lists are not covered by the statement)',
-    'colour checks apply to the serialisers that take web colours (svg, png, eps, pdf, pam, ppm, xpm); LaTeX colour names and TXT characters are free text',
+    'colour checks apply to the serialisers that take web colours (svg, png, eps, pdf, pam, ppm, xpm); LaTeX colour names and TXT characters are free text; '
+    'a non-opaque alpha colour given to a writer without alpha support (eps, pdf, ppm, xpm) counts as malformed for that writer and must be refused',
     'clauses c14.exc / c14.excluded / c14.ser / c14.spelling / c14.valid are input-sampled invariants; the simulator adds nothing to them',
     'what a refused or failed call leaves on disk is not an oracle (the statement is silent about it)',
 ]
@@ -214,7 +215,12 @@ BAD_SER = [({'scale': 0}, 'all'), ({'scale': -1}, 'all'), ({'scale': -0.5}, 'all
            ({'dark': '#12'}, 'color'), ({'dark': 'nocolor'}, 'color'), ({'dark': ''}, 'color'), ({'light': '#12345'}, 'color'),
            ({'light': '#gggggg'}, 'color'), ({'dark': '#1234567'}, 'color'), ({'dark': (1, 2)}, 'color'),
            ({'dark': (1, 2, 3, 4, 5)}, 'color'), ({'dark': (300, 0, 0)}, 'color'), ({'light': (-1, 0, 0)}, 'color'),
-           ({'dark': '#'}, 'color'), ({'light': 'rgb(1,2,3)'}, 'color')]
+           ({'dark': '#'}, 'color'), ({'light': 'rgb(1,2,3)'}, 'color'),
+           # a colour with a non-opaque alpha channel handed to a writer without alpha support is neither honoured nor
+           # well-formed for that writer: it must be refused, not silently flattened ("honoured or refused")
+           ({'dark': '#11223380'}, 'noalpha'), ({'light': '#1238'}, 'noalpha'), ({'dark': (10, 20, 30, 128)}, 'noalpha'),
+           ({'light': (10, 20, 30, 0.5)}, 'noalpha')]
+NOALPHA_KINDS = ('eps', 'pdf', 'ppm', 'xpm')
 
 
 # ----------------------------------------------------------------------------------------
@@ -523,6 +529,8 @@ def _exec_calls(segno, sc, res, viols, counters):
     for kind, bi, upper in sc['ser']:
         bad, scope = BAD_SER[bi]
         if scope == 'color' and kind not in COLOR_KINDS:
+            continue
+        if scope == 'noalpha' and kind not in NOALPHA_KINDS:
             continue
         if 'scale' in bad and kind in ('txt', 'ans'):
             continue
